@@ -55,12 +55,15 @@ func genRT(t *rapid.T) RT {
 		r.TypeName = rapid.SampledFrom([]string{"user", "a/b", "ünï", "x y"}).Draw(t, "tname")
 	}
 	r.Offset = rapid.SampledFrom([]string{"", "0000000001", "off/1"}).Draw(t, "coff")
+	if rapid.IntRange(0, 3).Draw(t, "padded") == 0 {
+		r.Pad = rapid.SampledFrom([]int{1500, 3000, 3300, 3500, 3700, 3900, 4100, 6000, 20000}).Draw(t, "pad")
+	}
 	return r
 }
 
 func GenRT(store string) func(t *rapid.T) *RTCase {
 	return func(t *rapid.T) *RTCase {
-		c := &RTCase{Store: store}
+		c := &RTCase{Store: store, Batch: rapid.Bool().Draw(t, "batch")}
 		n := rapid.IntRange(1, 14).Draw(t, "n") // past ten: SQLite offsets gain a digit
 		for i := 0; i < n; i++ {
 			c.Msgs = append(c.Msgs, genRT(t))
